@@ -67,6 +67,7 @@ type PathResult struct {
 	Reached     []string
 	CEs         []CounterExample
 	Inconcl     []string
+	Traps       []string
 	Sample      []ReplayItem // model of the path condition (for samples / validation)
 	Observed    []string     // predicted Observe values under Sample
 	Funcs       map[string]bool
